@@ -787,6 +787,17 @@ unsafe impl Allocator for PageAlignedAllocator {
             f(ptr.as_ptr() as usize, layout.size());
         }
 
+        // wipe the whole allocation, spare capacity included, before it goes
+        // back to the system allocator: containers only clear the bytes they
+        // consider in use, and growing a Vec releases the old buffer as it is
+        if layout.size() > 0 {
+            let region = std::slice::from_raw_parts_mut(ptr.as_ptr(), layout.size());
+            dryoc_mprotect_readwrite(region)
+                .map_err(|err| eprintln!("mprotect error = {:?}", err))
+                .ok();
+            region.zeroize();
+        }
+
         let ptr = ptr.as_ptr().offset(-(pagesize as isize));
 
         // unlock the fore protected region
